@@ -46,6 +46,7 @@ func c06senderKinds() []c06senderKind {
 			q, tr := q, tr
 			kinds = append(kinds, c06senderKind{name: "client/queue=" + q + "/transport=" + tr, mk: func(r *Router) (Sender, *c06transport, []string) {
 				c := &Client{config: &Config{StreamManagementEnable: q != "no-sm"}, Session: &Session{}, router: r}
+				c.CurrentState.setState(StateSessionEstablished) // a client that is routing has an established session
 				var held []string
 				if q != "no-sm" {
 					c.Session.SMState.UnAckQueue = stanza.NewUnAckQueue()
